@@ -637,11 +637,42 @@ fn dump<'tcx>(tcx: TyCtxt<'tcx>, out_dir: &str) {
                 };
                 let body = tcx.optimized_mir(def_id);
                 fns.push(cx.body(did, body, kind));
+                // promoted constants (e.g. `&["lt;", ..]` tables) are separate bodies
+                let proms = tcx.promoted_mir(def_id);
+                for (pi, pb) in proms.iter_enumerated() {
+                    let mut j = cx.body(did, pb, "promoted");
+                    if let J::Obj(ref mut v) = j {
+                        for (k, val) in v.iter_mut() {
+                            if *k == "id" {
+                                if let J::Str(s0) = val {
+                                    *s0 = format!("{}::{{promoted#{}}}", s0, pi.as_usize());
+                                }
+                            }
+                        }
+                        v.push(("promoted_of", s(cx.canon(def_id))));
+                    }
+                    fns.push(j);
+                }
             }
             DefKind::Const { .. } | DefKind::AssocConst { .. } | DefKind::Static { .. } => {
                 let kind = if matches!(dk, DefKind::Static { .. }) { "static" } else { "const" };
                 let body = tcx.mir_for_ctfe(def_id);
                 fns.push(cx.body(did, body, kind));
+                let proms = tcx.promoted_mir(def_id);
+                for (pi, pb) in proms.iter_enumerated() {
+                    let mut j = cx.body(did, pb, "promoted");
+                    if let J::Obj(ref mut v) = j {
+                        for (k, val) in v.iter_mut() {
+                            if *k == "id" {
+                                if let J::Str(s0) = val {
+                                    *s0 = format!("{}::{{promoted#{}}}", s0, pi.as_usize());
+                                }
+                            }
+                        }
+                        v.push(("promoted_of", s(cx.canon(def_id))));
+                    }
+                    fns.push(j);
+                }
             }
             _ => {}
         }
